@@ -594,6 +594,9 @@ def key_to_ascending_key(key: GetItemKeyType, size: int) -> GetItemKeyType:
 
     if key.__class__ is np.ndarray:
         # array first as not truthy
+        if key.dtype == DTYPE_BOOL: #type: ignore
+            # a Boolean mask is positional: sorting it would move the selection to the last positions
+            return key
         return np.sort(key, kind=DEFAULT_SORT_KIND)
 
     if not len(key): #type: ignore
